@@ -74,6 +74,17 @@ def uses_typed_literal(term: tuple) -> bool:
     return False
 
 
+def rdf11(stmts: list) -> bool:
+    """True when the sequence only uses RDF 1.1 terms in legal positions (representable in rdflib)."""
+    for st in stmts:
+        s_, p_, o_ = st[0], st[1], st[2]
+        if s_[0] not in ("iri", "bnode") or p_[0] != "iri" or o_[0] not in ("iri", "bnode", "lit"):
+            return False
+        if len(st) > 3 and st[3][0] not in ("default", "iri", "bnode"):
+            return False
+    return True
+
+
 def uses_kind(term: tuple, kind: str) -> bool:
     if term[0] == kind:
         return True
